@@ -1,2 +1,165 @@
-/-! Stub driver: the model driver for this property is not built yet. -/
-def main : IO Unit := IO.println "unimplemented"
+import JoblibModel.ArrayFormat
+import JoblibModel.IOUtil
+/-! Driver for C19 (model `JoblibModel.ArrayFormat`). One request per line; `<align>` is a number or `-`
+(`None`), lists are comma-separated (`-` = empty), `<hex>` is lower-case hex (`-` = empty).
+
+* `layout <align> <pos> <itemsize> <count>` → `ok pad=<p|-> start=<data start> end=<end>` | `err <Class>`
+      (`writeArray` on an empty payload: pad byte, pad run, data start; end = start + count*itemsize)
+* `write <align> <pos> <itemsize> <hex data>` → `ok <hex of the bytes appended>` | `err <Class>`
+* `read <align> <pos> <count> <itemsize> <hex file bytes from pos>` → `ok <hex data> pos=<p> left=<n>` | `err <Class>`
+* `mmap <align> <pos> <count> <itemsize> <hex file bytes from pos>` → `offset=<o> warns=<0|1> pos=<p>`
+* `chunks <itemsize> <count>` → `ok m=<max_read_count> n=<reads> sum=<items> first=<c> last=<c> maxbytes=<b>` | `err <Class>`
+* `count <shape>` → `<count>`
+* `order <c_contiguous 0|1> <f_contiguous 0|1>` → `C` | `F`
+* `index <C|F> <shape> <idx>` → `w=<writeIndex> r=<readIndex>`
+* `reduce <a.ptr> <a.shape> <a.strides> <a.itemsize> <m.ptr> <m.shape> <m.strides> <m.itemsize> <m.offset> <a_c> <a_f> <m_f>`
+      → `offset=<o> order=<C|F> strides=<list|None> tbl=<n|None>`
+* `elem <…same 12 fields…> <idx>` → `rebuilt=<file offset> original=<file offset>`
+* `tables` → the generated constants
+Anything else → `bad-op`. -/
+open JoblibModel JoblibModel.ArrayFormat JoblibModel.Generated JoblibModel.IOUtil
+
+def optNat? (s : String) : Option (Option Nat) :=
+  if s = "-" then some none else s.toNat?.map some
+
+def natList? (s : String) : Option (List Nat) :=
+  if s = "-" then some [] else (s.splitOn ",").mapM (·.toNat?)
+
+def intList? (s : String) : Option (List Int) :=
+  if s = "-" then some [] else (s.splitOn ",").mapM (·.toInt?)
+
+def bool? (s : String) : Option Bool :=
+  if s = "1" then some true else if s = "0" then some false else none
+
+def hexVal (c : Char) : Option Nat :=
+  if '0' ≤ c ∧ c ≤ '9' then some (c.toNat - '0'.toNat)
+  else if 'a' ≤ c ∧ c ≤ 'f' then some (c.toNat - 'a'.toNat + 10)
+  else none
+
+def parseHexAux : List Char → List Nat → Option Bytes
+  | [], acc => some acc.reverse
+  | a :: b :: r, acc => do
+    let x ← hexVal a
+    let y ← hexVal b
+    parseHexAux r ((16 * x + y) :: acc)
+  | _, _ => none
+
+def parseHex (t : String) : Option Bytes :=
+  if t = "-" then some [] else parseHexAux t.toList []
+
+def hex2 (n : Nat) : String :=
+  let d := fun (k : Nat) => "0123456789abcdef".toList.getD k '?'
+  String.ofList [d (n / 16 % 16), d (n % 16)]
+
+def showHex (b : Bytes) : String := if b.isEmpty then "-" else String.join (b.map hex2)
+
+def showInts (l : List Int) : String := if l.isEmpty then "-" else ",".intercalate (l.map toString)
+
+def showOrder : Order → String
+  | .C => "C"
+  | .F => "F"
+
+def parseArrs (t : List String) : Option (Arr × Arr × Nat × Bool × Bool × Bool) :=
+  match t with
+  | [ap, ash, ast, ais, mp, msh, mst, mis, mo, ac, af, mf] => do
+    let ap ← ap.toInt?
+    let ash ← natList? ash
+    let ast ← intList? ast
+    let ais ← ais.toNat?
+    let mp ← mp.toInt?
+    let msh ← natList? msh
+    let mst ← intList? mst
+    let mis ← mis.toNat?
+    let mo ← mo.toNat?
+    let ac ← bool? ac
+    let af ← bool? af
+    let mf ← bool? mf
+    if ash.length ≠ ast.length ∨ msh.length ≠ mst.length then none
+    else pure (⟨ap, ash, ast, ais⟩, ⟨mp, msh, mst, mis⟩, mo, ac, af, mf)
+  | _ => none
+
+def handle (line : String) : String :=
+  match tokens line with
+  | ["layout", al, pos, isz, cnt] =>
+    match optNat? al, pos.toNat?, isz.toNat?, cnt.toNat? with
+    | some al, some pos, some isz, some cnt =>
+      match writeArray al pos isz [] with
+      | .error e => "err " ++ e.name
+      | .ok w =>
+        let start := pos + w.length
+        "ok pad=" ++ (match al with | none => "-" | some _ => toString (w.headD 0))
+          ++ " start=" ++ toString start ++ " end=" ++ toString (start + cnt * isz)
+    | _, _, _, _ => "bad-op"
+  | ["write", al, pos, isz, d] =>
+    match optNat? al, pos.toNat?, isz.toNat?, parseHex d with
+    | some al, some pos, some isz, some d =>
+      match writeArray al pos isz d with
+      | .error e => "err " ++ e.name
+      | .ok w => "ok " ++ showHex w
+    | _, _, _, _ => "bad-op"
+  | ["read", al, pos, cnt, isz, f] =>
+    match optNat? al, pos.toNat?, cnt.toNat?, isz.toNat?, parseHex f with
+    | some al, some pos, some cnt, some isz, some f =>
+      match readArray al ⟨f, pos⟩ cnt isz with
+      | .error e => "err " ++ e.name
+      | .ok (d, h) => "ok " ++ showHex d ++ " pos=" ++ toString h.pos ++ " left=" ++ toString h.rest.length
+    | _, _, _, _, _ => "bad-op"
+  | ["mmap", al, pos, cnt, isz, f] =>
+    match optNat? al, pos.toNat?, cnt.toNat?, isz.toNat?, parseHex f with
+    | some al, some pos, some cnt, some isz, some f =>
+      let r := readMmap al ⟨f, pos⟩ cnt isz
+      "offset=" ++ toString r.offset ++ " warns=" ++ (if r.warns then "1" else "0")
+        ++ " pos=" ++ toString r.after.pos
+    | _, _, _, _, _ => "bad-op"
+  | ["chunks", isz, cnt] =>
+    match isz.toNat?, cnt.toNat? with
+    | some isz, some cnt =>
+      match maxReadCount isz with
+      | .error e => "err " ++ e.name
+      | .ok m =>
+        let l := chunks m cnt 0
+        let sizes := l.map (·.2)
+        "ok m=" ++ toString m ++ " n=" ++ toString l.length ++ " sum=" ++ toString sizes.sum
+          ++ " first=" ++ toString (sizes.headD 0) ++ " last=" ++ toString (sizes.getLastD 0)
+          ++ " maxbytes=" ++ toString ((sizes.foldl max 0) * isz)
+    | _, _ => "bad-op"
+  | ["count", sh] =>
+    match natList? sh with
+    | some sh => toString (count sh)
+    | none => "bad-op"
+  | ["order", c, f] =>
+    match bool? c, bool? f with
+    | some c, some f => showOrder (orderOf c f)
+    | _, _ => "bad-op"
+  | ["index", o, sh, idx] =>
+    match (if o = "C" then some Order.C else if o = "F" then some Order.F else none), natList? sh, natList? idx with
+    | some o, some sh, some idx =>
+      if sh.length ≠ idx.length then "bad-op"
+      else "w=" ++ toString (writeIndex o sh idx) ++ " r=" ++ toString (readIndex o sh idx)
+    | _, _, _ => "bad-op"
+  | "reduce" :: rest =>
+    match parseArrs rest with
+    | some (a, m, mo, ac, af, mf) =>
+      let r := reduceMemmapBacked a m mo ac af mf
+      "offset=" ++ toString r.offset ++ " order=" ++ showOrder r.order
+        ++ " strides=" ++ (match r.strides with | none => "None" | some s => showInts s)
+        ++ " tbl=" ++ (match r.total_buffer_len with | none => "None" | some n => toString n)
+    | none => "bad-op"
+  | "elem" :: rest =>
+    match rest.getLast?, parseArrs rest.dropLast with
+    | some idx, some (a, m, mo, ac, af, mf) =>
+      match natList? idx with
+      | some idx =>
+        if idx.length ≠ a.shape.length then "bad-op"
+        else
+          let r := reduceMemmapBacked a m mo ac af mf
+          "rebuilt=" ++ toString (rebuiltElemOffset r a.itemsize idx)
+            ++ " original=" ++ toString (originalElemOffset a m mo idx)
+      | none => "bad-op"
+    | _, _ => "bad-op"
+  | ["tables"] =>
+    "tables align=" ++ toString numpyArrayAlignmentBytes ++ " buffer=" ++ toString bufferSize
+      ++ " pad=" ++ toString padValue
+  | _ => "bad-op"
+
+def main : IO Unit := lineLoop handle
